@@ -40,6 +40,17 @@ def tweak(rng, sc):
     for r in sc["api"]["revs"]:
         o = rng.random()
         r["owner"] = ME if o < 0.5 else None if o < 0.8 else rng.choice([STALE, DS, OTHERSET])
+    if rng.random() < 0.15 and sc["api"]["pods"]:
+        # cached objects are read-only: healthy owned pods whose identity or storage needs the repair path
+        # (UpdateStatefulPod works on a copy of the cached pod; the harness compares the caches before and after)
+        for p in sc["api"]["pods"]:
+            p.update(owner=ME, match=True, term=False, phase="Running", ready=True)
+        for p in rng.sample(sc["api"]["pods"], min(len(sc["api"]["pods"]), rng.choice([1, 1, 2]))):
+            if rng.random() < 0.7:
+                p["namelabel"] = rng.choice([None, "web-zzz"])
+            else:
+                p["vols"] = [v for v in p["vols"] if v.get("claim") is None]
+        sc["cache"]["pods"] = copy.deepcopy(sc["api"]["pods"])
     return sc
 
 
